@@ -20,24 +20,35 @@ ASSUMPTIONS = [
     "REAL32 values are binary32-representable (others are rounded by any codec)",
     "'rejected' accepts any exception type",
 ]
-BUDGET = {"quick": 50, "thorough": 300}
+BUDGET = {"quick": 150, "thorough": 300}
 
 _vars = {}
 
 
-def _var(dt):
-    v = _vars.get(dt)
+def _var(dt, src="code"):
+    """The variable whose codec is exercised: made in code, or (src='eds') taken from a dictionary
+    imported from an EDS text that declares an object of that data type."""
+    v = _vars.get((dt, src))
     if v is None:
-        from canopen.objectdictionary import ODVariable
-        v = ODVariable("v", 0x2000, 0)
-        v.data_type = dt
-        _vars[dt] = v
+        if src == "eds":
+            import io
+
+            import canopen
+            from harness.c02 import render_eds
+            fp = io.StringIO(render_eds([{"kind": "var", "index": 0x2000, "name": "v", "dt": dt}], False))
+            fp.name = "generated.eds"
+            v = canopen.import_od(fp, 1)[0x2000]
+        else:
+            from canopen.objectdictionary import ODVariable
+            v = ODVariable("v", 0x2000, 0)
+            v.data_type = dt
+        _vars[(dt, src)] = v
     return v
 
 
 def run_case(case) -> Outcome:
     op, dt = case["op"], case["dt"]
-    var = _var(dt)
+    var = _var(dt, case.get("src", "code"))
     D = []
     name = rc.NAMES[dt]
 
@@ -260,6 +271,17 @@ def search(ctx):
                     yield {"op": "int", "dt": dt, "v": v}
             for v in oor_ints(dt):
                 yield {"op": "oor", "dt": dt, "v": v}
+            # the same codec reached through a dictionary imported from EDS text
+            for v in boundary_ints(dt):
+                yield {"op": "int", "dt": dt, "v": v, "src": "eds"}
+            for v in list(oor_ints(dt))[:4]:
+                yield {"op": "oor", "dt": dt, "v": v, "src": "eds"}
+            yield {"op": "bytes", "dt": dt, "b": bytes(range(0x81, 0x81 + rc.width(dt) // 8)), "src": "eds"}
+            yield {"op": "bytes", "dt": dt, "b": bytes(rc.width(dt) // 8 + 1), "src": "eds"}
+        for dt in sorted(rc.REALS):
+            for bits in list(real_patterns(dt))[:12]:
+                yield {"op": "real", "dt": dt, "bits": bits, "src": "eds"}
+        yield {"op": "bool", "dt": rc.BOOLEAN, "v": True, "src": "eds"}
         for v in (False, True):
             yield {"op": "bool", "dt": rc.BOOLEAN, "v": v}
         # byte strings: every 1- and 2-byte pattern for the 8/16-bit types + BOOLEAN
@@ -305,7 +327,8 @@ def search(ctx):
         if kind == "int":
             dt = draw(st.sampled_from(wide))
             lo, hi = rc.int_range(dt)
-            return {"op": "int", "dt": dt, "v": draw(st.integers(lo, hi))}
+            return {"op": "int", "dt": dt, "v": draw(st.integers(lo, hi)),
+                    "src": draw(st.sampled_from(["code", "code", "eds"]))}
         if kind == "oor":
             dt = draw(st.sampled_from(sorted(rc.INTEGERS)))
             lo, hi = rc.int_range(dt)
